@@ -205,4 +205,8 @@ GenMonotone == [][gen' >= gen]_vars
 HolderChange == [][(holder' # holder /\ holder' # 0) =>
                        \/ hist'[Len(hist')].act \in {"reserve", "preempt"} /\ hist'[Len(hist')].i = holder'
                        \/ hist'[Len(hist')].act = "regmove" /\ hist'[Len(hist')].i = holder /\ hist'[Len(hist')].args[4] = holder']_vars
+\* the state without its history: two states that differ only in hist / gen have the same successors (up to hist /
+\* gen), so exploring one representative of each (TLC's VIEW) visits every reachable core state and every kind of
+\* transition however long the history is - the invariants and action properties then hold for histories of any length
+CoreView == <<reg, holder, rtype, disk>>
 =============================================================================
